@@ -859,6 +859,22 @@ Record sig_closed0 : Prop := {
   info_ids_wf : forall c si, dec (P_info S) c = Some si -> forall g, In g (dflt_list (snd si)) ->
                 forall id, snd g = Some id -> wf_key S id;
   info_ok_nodup : forall i : info, info_ok S i = true -> NoDup (some_ids (map g_id (guides_of i))) }.
+(** the same, asked only of the files of ONE tree where a reader is not closed in general (a real
+    lib / kerning / layerinfo reader also returns values outside its writer's domain, e.g.
+    non-finite reals): lib.plist, kerning.plist and the layerinfo.plist files of [t] *)
+Record sig_closed_at (t : tree) : Prop := {
+  at_info : part_closed (P_info S);
+  at_groups : part_closed (P_groups S);
+  at_lc : part_closed (P_lc S); at_contents : part_closed (P_contents S);
+  at_lib : forall c x, t_lib t = Some c -> dec (P_lib S) c = Some x -> wf (P_lib S) x;
+  at_kerning : forall c x, t_kerning t = Some c -> dec (P_kerning S) c = Some x -> wf (P_kerning S) x;
+  at_li : forall dn d c x, alookup dn (t_dirs t) = Some d -> ld_info d = Some c ->
+          dec (P_li S) c = Some x -> wf (P_li S) x;
+  at_meta_wf_norad : forall c m, dec (P_meta S) c = Some m ->
+                  wf (P_meta S) {| m_creator := Some NORAD_CREATOR; m_version := 3; m_minor := m_minor m |};
+  at_info_ids_wf : forall c si, dec (P_info S) c = Some si -> forall g, In g (dflt_list (snd si)) ->
+                forall id, snd g = Some id -> wf_key S id;
+  at_info_ok_nodup : forall i : info, info_ok S i = true -> NoDup (some_ids (map g_id (guides_of i))) }.
 (** ... plus the glif reader: what it returns is in the writer's domain, whatever name it is given *)
 Record sig_closed : Prop := {
   cl_base : sig_closed0;
